@@ -2,6 +2,7 @@ package bungeecord
 
 import (
 	"bytes"
+	"go.minekube.com/gate/pkg/command"
 	"io"
 	"net"
 	"strings"
@@ -374,8 +375,21 @@ func (r *bungeeCordMessageResponder) processMessage0(in io.Reader, decoder codec
 	}
 	if target == "ALL" {
 		r.BroadcastMessage(comp)
-	} else {
-		r.Server(target).BroadcastMessage(comp)
+		return
+	}
+	// The target of Message / MessageRaw is a player name.
+	if p := r.PlayerByName(target); p != nil {
+		if m, ok := p.(interface {
+			SendMessage(component.Component, ...command.MessageOption) error
+		}); ok {
+			_ = m.SendMessage(comp)
+		}
+		return
+	}
+	// Formerly the target was looked up as a server (and an unknown name crashed the
+	// handler); keep that for names that are servers.
+	if s := r.Server(target); s != nil {
+		s.BroadcastMessage(comp)
 	}
 }
 func (r *bungeeCordMessageResponder) processMessage(in io.Reader) {
